@@ -418,6 +418,12 @@ class FrozenDriver(Base):
             res["get"] = [([dec(o[A(a)]) if not isinstance(o[A(a)], list) else 99] if A(a) in o else []) for a in range(1, self.U + 1)]
             res["eq_same_dict"] = bool(o == dict(dict.items(o))) and isinstance(repr(o), str)
             res["is_dict"] = isinstance(o, dict)
+            try:
+                res["hashable"] = hash(o) == hash(o)
+            except Exception as ex:
+                if core.exc_name(ex) != "FrozenHashError":
+                    raise
+                res["hashable"] = False
         except core.Hang:
             raise
         except Exception as ex:
